@@ -46,14 +46,18 @@ class Pos(E):
 
 
 class Lit(E):
-    def __init__(self, s, ci=False):
+    def __init__(self, s, ci=False, cps=None):
         self.s = s
         self.ci = ci
+        self.cps = cps   # explicit code points (may be invalid ones: surrogates, > 10FFFF)
+
+    def codepoints(self):
+        return list(self.cps) if self.cps is not None else [ord(c) for c in self.s]
 
 
 class Range(E):
     def __init__(self, lo, hi):
-        self.lo = lo
+        self.lo = lo   # a character, or an int code point (possibly invalid)
         self.hi = hi
 
 
@@ -158,9 +162,21 @@ def esc_char(c, quote):
     return "\\u{%X}" % o
 
 
+def esc_cp(c, quote):
+    if isinstance(c, str):
+        return esc_char(c, quote)
+    if 32 <= c < 127 and chr(c) not in ("\\", quote):
+        return chr(c)
+    return "\\u{%X}" % c
+
+
 def lit_text(s, ci=False):
     q = "'"
-    return ("i" if ci else "") + q + "".join(esc_char(c, q) for c in s) + q
+    return ("i" if ci else "") + q + "".join(esc_cp(c, q) for c in s) + q
+
+
+def cp_of(c):
+    return c if isinstance(c, int) else ord(c)
 
 
 def expr_text(e, ctx="choice"):
@@ -182,9 +198,9 @@ def expr_text(e, ctx="choice"):
     if isinstance(e, Pos):
         return "&" + expr_text(e.b, "unary")
     if isinstance(e, Lit):
-        return lit_text(e.s, e.ci)
+        return lit_text(e.cps if e.cps is not None else e.s, e.ci)
     if isinstance(e, Range):
-        return lit_text(e.lo) + ".." + lit_text(e.hi)
+        return lit_text([e.lo]) + ".." + lit_text([e.hi])
     if isinstance(e, Eoi):
         return "$"
     if isinstance(e, Call):
@@ -221,9 +237,9 @@ def rule_text(r):
         parts = []
         for p in r.parts:
             if p[0] == "lit":
-                parts.append(lit_text(p[1]))
+                parts.append(lit_text([p[1]]))
             elif p[0] == "range":
-                parts.append(lit_text(p[1]) + ".." + lit_text(p[2]))
+                parts.append(lit_text([p[1]]) + ".." + lit_text([p[2]]))
             else:
                 parts.append(p[1])
         out.append("%s = %s;" % (r.name, " | ".join(parts)))
@@ -270,22 +286,28 @@ def grammar_json(g):
         if isinstance(e, Pos):
             return add({"k": "pos", "b": walk(e.b)})
         if isinstance(e, Lit):
-            return add({"k": "lit", "s": [ord(c) for c in e.s], "ci": bool(e.ci)})
+            return add({"k": "lit", "s": e.codepoints(), "ci": bool(e.ci)})
         if isinstance(e, Range):
-            return add({"k": "range", "lo": ord(e.lo), "hi": ord(e.hi)})
+            return add({"k": "range", "lo": cp_of(e.lo), "hi": cp_of(e.hi)})
         if isinstance(e, Eoi):
             return add({"k": "eoi"})
         if isinstance(e, Call):
             f = "" if e.field is None else e.field
             return add({"k": "call", "ri": g.index(e.rule), "f": f, "boxed": bool(e.boxed)})
         if isinstance(e, Inc):
-            return add({"k": "inc", "ri": g.index(e.rule)})
+            try:
+                return add({"k": "inc", "ri": g.index(e.rule)})
+            except KeyError:
+                return add({"k": "inc", "ri": -2})
         raise TypeError(e)
 
     rules = []
     for r in g.rules:
         if r.kind == "rule":
-            rules.append({"kind": "rule", "name": r.name, "body": walk(r.body), "skip": not r.no_skip_ws,
+            n0 = len(nodes)
+            body = walk(r.body)
+            rules.append({"kind": "rule", "name": r.name, "body": body, "nodes": list(range(n0 + 1, len(nodes) + 1)),
+                          "skip": not r.no_skip_ws,
                           "string": bool(r.string), "position": bool(r.position), "memoize": bool(r.memoize),
                           "leftrec": bool(r.leftrec), "export": bool(r.export),
                           "checks": [oracle_json(c) for c in r.checks]})
@@ -293,9 +315,9 @@ def grammar_json(g):
             parts = []
             for p in r.parts:
                 if p[0] == "lit":
-                    parts.append({"k": "lit", "c": ord(p[1])})
+                    parts.append({"k": "lit", "c": cp_of(p[1])})
                 elif p[0] == "range":
-                    parts.append({"k": "range", "lo": ord(p[1]), "hi": ord(p[2])})
+                    parts.append({"k": "range", "lo": cp_of(p[1]), "hi": cp_of(p[2])})
                 else:
                     parts.append({"k": "ref", "ri": g.index(p[1])})
             rules.append({"kind": "char", "name": r.name, "parts": parts,
@@ -304,7 +326,9 @@ def grammar_json(g):
             rules.append({"kind": "extern", "name": r.name, "fn": oracle_json(r.fn)})
     ws = g.index("Whitespace") if g.rule("Whitespace") is not None else 0
     return {"id": g.id, "rules": rules, "nodes": nodes, "root": g.index(g.root), "ws": ws, "lrfirst": bool(g.meta.get("lrfirst", True)),
-            "alpha": [ord(c) for c in g.alpha], "maxlen": g.maxlen,
+            "derives": g.meta.get("derives_list", ["Debug", "Clone"]), "badident": bool(g.meta.get("badident")),
+            "expect": g.meta.get("expect", "code"),
+            "alpha": [ord(c) for c in (g.alpha or [])], "maxlen": g.maxlen,
             "extra": [[ord(c) for c in x] for x in g.extra]}
 
 
@@ -447,13 +471,14 @@ def chars_of(g):
 
     for e in all_exprs(g):
         if isinstance(e, Lit):
-            for c in e.s:
+            for c in (e.s or ""):
                 add(c)
                 if e.ci and c.swapcase() != c:
                     add(c.swapcase())
         elif isinstance(e, Range):
-            add(e.lo)
-            add(e.hi)
+            if isinstance(e.lo, str) and isinstance(e.hi, str):
+                add(e.lo)
+                add(e.hi)
     for r in g.rules:
         if r.kind == "char":
             for p in r.parts:
